@@ -145,3 +145,11 @@ Definition heap_mem_invalid_free_reported_full : Prop :=
     crun c (heap_init_state, []) ops = Some (s, live) -> h_initialized s = true ->
     0 < p < two64 -> ~ In p (map b_addr live) ->
     hp_dealloc s p = HPanic.
+
+(* the allocator's own writes never land in a live payload: every word that overlaps the bytes of a
+   block that is live before and after an operation (up to the smaller of its two sizes) is unchanged.
+   Words are 8 bytes: w ranges from 7 bytes below the block (a word that would still overlap its
+   first byte) to its last byte. *)
+Definition payload_frame (live live' : list blk) (m m' : mem) : Prop :=
+  forall b b', In b live -> In b' live' -> b_addr b = b_addr b' ->
+  forall w, b_addr b - 8 < w < b_addr b + Z.min (b_size b) (b_size b') -> mget m' w = mget m w.
